@@ -260,6 +260,12 @@ func runSyncParse(c *ctx) error {
 	}
 	s.AuthorizeServer(s.BuildServer(hx.ServerSpec{Key: "as0", Banned: true, Loc: "", Ports: [3]uint16{0, 65535, 1}, Signer: "gca"}))
 	fetch(1, cl, ctx1)
+	// a ban order that names the server with another location and other ports than its authorization did: what the
+	// reply then carries for that server is still an entry the GCA signed
+	s.AuthorizeServer(s.BuildServer(hx.ServerSpec{Key: "as1", Banned: true, Loc: "", Ports: [3]uint16{9, 9, 9}, Signer: "gca"}))
+	fetch(1, cl, ctx1)
+	s.AuthorizeServer(s.BuildServer(hx.ServerSpec{Key: "as3", Banned: true, Loc: "gone.example", Ports: [3]uint16{3, 65535, 1}, Signer: "gca"}))
+	fetch(1, cl, ctx1)
 	// migration orders with 0..k new servers
 	for k := 0; k <= 3; k++ {
 		var ns []hx.ServerSpec
